@@ -48,6 +48,27 @@ def testvariant_tree():
     }
 
 
+def multifile_ignores(npk=6, nfiles=4):
+    """packages of several files that each carry @ignore comments for the same codes: the files of a package are parsed
+    concurrently, so their position ranges are in no fixed order from run to run.  Returns (files, expected positions)"""
+    files, expect = {}, set()
+    for p in range(npk):
+        for k in range(nfiles):
+            fn = "mf/p%d/%s.go" % (p, "abcdefgh"[k])
+            ls = ["package p%d" % p, ""]
+            if k == 0:
+                ls += ["// T is immutable.", "// @immutable", "// @constructor NewT", "type T struct{ F int }", "", "func NewT() *T { return &T{} }", ""]
+            ls += ["func mut%d(t *T) {" % k, "	t.F = 1 // @ignore IMM01", "	// @ignore IMM", "	t.F++", "	t.F = 3", "	_ = T{} // @ignore CTOR01", "	_ = &T{}", "}", "",
+                   "// @ignore ALL", "func quiet%d(t *T) {" % k, "	t.F = 4", "	_ = T{}", "}", ""]
+            files[fn] = "\n".join(ls) + "\n"
+            for i, l in enumerate(ls, 1):
+                if l in ("\tt.F = 3",):
+                    expect.add((fn, i, "IMM01"))
+                if l in ("\t_ = &T{}",):
+                    expect.add((fn, i, "CTOR01"))
+    return files, expect
+
+
 def normalise(stdout, root):
     """the -json output as a sorted list of (package, analyzer, position, full message): byte-for-byte comparable"""
     try:
@@ -96,6 +117,11 @@ def run(ctx):
         p = os.path.join(root, rel)
         os.makedirs(os.path.dirname(p), exist_ok=True)
         open(p, "w").write(text)
+    mf_files, mf_expect = multifile_ignores()
+    for rel, text in mf_files.items():
+        p = os.path.join(root, rel)
+        os.makedirs(os.path.dirname(p), exist_ok=True)
+        open(p, "w").write(text)
     flags = worlds.cfg_flags((True, ["testdata"], []))      # test files are analysed: test variants of packages take part
     all_dirs = sorted({os.path.relpath(dp, root) for dp, _, fs in os.walk(root) if any(f.endswith(".go") for f in fs)})
     pats_all = ["./" + x for x in all_dirs]
@@ -126,6 +152,18 @@ def run(ctx):
             a = [t for t in norm if t not in ref][:5]
             b = [t for t in ref if t not in norm][:5]
             problems.append({"run": name, "what": "output differs from `%s`" % ref_name, "only_in_this_run": a, "only_in_reference": b, "sizes": [len(norm), len(ref)]})
+    # the multi-file packages: in every run exactly the unsuppressed statements are reported
+    for name, norm, x in res:
+        got = set()
+        for t in norm or []:
+            m = re.match(r"^(mf/\S+?\.go):(\d+):\d+$", t[2])
+            c = re.search(r"\[(\w+)\]", t[3])
+            if m and c:
+                got.add((m.group(1), int(m.group(2)), c.group(1)))
+        if norm is not None and got != mf_expect:
+            problems.append({"run": name, "what": "a package whose files each carry @ignore comments: reported statements differ from the unsuppressed ones",
+                             "reported_although_suppressed": sorted(got - mf_expect)[:6], "not_reported": sorted(mf_expect - got)[:6]})
+            break
     # with / without unrelated packages: a world alone vs in the full run
     sub = []
     for wid in wids[: (3 if not thorough else 10)]:
@@ -171,7 +209,7 @@ def run(ctx):
     lib.obligation_gate(rep, ctx, "C11", found)
     rep.cov["evaluations"] = len(res) + len(sub) + race["runs"]
     rep.cov["distinct_nontrivial"] = len(res) + len(sub) + race["runs"] if ref else 0
-    rep.cov["rule"] = ("one module of %d DAG worlds and a hot sub-tree (%d packages x %d annotated declarations, all importing one annotated package) analysed %d times in parallel (16 cores), "
+    rep.cov["rule"] = ("one module of %d DAG worlds, six four-file packages whose files each carry @ignore comments for the same codes (files of a package are parsed concurrently: their position ranges come in no fixed order) and a hot sub-tree (%d packages x %d annotated declarations, all importing one annotated package) analysed %d times in parallel (16 cores), "
                        "sequentially (-debug=p), with the package list permuted / reversed, per world alone, and by a -race build; the normalised -json outputs (package, analyzer, position, full "
                        "message text) must be byte-identical and the race detector silent. non-trivial = runs compared (each carries %d diagnostics)" %
                        (n, 16 if not thorough else 32, 60 if not thorough else 150, reps, len(ref or [])))
